@@ -6,9 +6,13 @@ use std::net::SocketAddr;
 use std::panic::{AssertUnwindSafe, catch_unwind};
 use std::sync::{Arc, Mutex};
 
-use alpenglow::Disseminator;
-use alpenglow::consensus::{EpochInfo, ValidatorEpochInfo};
+use alpenglow::all2all::TrivialAll2All;
+use alpenglow::consensus::{Blockstore, ConsensusMessage, EpochInfo, ValidatorEpochInfo};
+use alpenglow::crypto::aggsig;
 use alpenglow::crypto::signature::SecretKey;
+use alpenglow::network::localhost_ip_sockaddr;
+use alpenglow::repair::{RepairRequest, RepairResponse};
+use alpenglow::{Alpenglow, Disseminator, Stake, Transaction};
 use alpenglow::disseminator::rotor::sampling_strategy::{FaitAccompli1Sampler, PartitionSampler};
 use alpenglow::disseminator::rotor::{IidQuorumSampler, StakeWeightedSampler};
 use alpenglow::disseminator::{Rotor, TrivialDisseminator, Turbine};
@@ -161,6 +165,122 @@ impl Out {
         self.cases.push(txt);
         self.descr.push(d);
         cid
+    }
+}
+
+// ---------------------------------------------------------------------------------------------
+// real nodes: Alpenglow::verif_handle_disseminator_shred is the receive path
+// ---------------------------------------------------------------------------------------------
+/// Network that swallows what is sent and never receives (all2all, repair, transactions).
+pub struct Sink<S, R>(std::marker::PhantomData<fn(S) -> R>);
+impl<S, R> Default for Sink<S, R> { fn default() -> Self { Sink(std::marker::PhantomData) } }
+impl<S: Send + Sync, R: Send + Sync> Network for Sink<S, R> {
+    type Send = S;
+    type Recv = R;
+    async fn send(&self, _m: &S, _a: SocketAddr) -> std::io::Result<()> { Ok(()) }
+    async fn send_to_many(&self, _m: &S, _a: impl IntoIterator<Item = SocketAddr> + Send) -> std::io::Result<()> { Ok(()) }
+    async fn receive(&self) -> std::io::Result<R> { std::future::pending().await }
+}
+
+pub struct RunResult {
+    /// (shred index, deliveries in FIFO order, non-empty send_to_many calls made while forwarding)
+    pub shreds: Vec<(u64, Vec<u64>, u64)>,
+    /// validators whose blockstore holds every shred of the slice at the end
+    pub stored: Vec<u64>,
+    /// number of shreds for which the leader itself sent something when it received its own shred back
+    pub leader_relayed: u64,
+}
+
+type Node<D> = Alpenglow<TrivialAll2All<Sink<ConsensusMessage, ConsensusMessage>>, D, Sink<(), Transaction>>;
+
+async fn drive<D, F>(infos: Vec<ValidatorInfo>, sks: Vec<SecretKey>, vsks: Vec<aggsig::SecretKey>, slot: u64, leader: u64, mk: F) -> Option<RunResult>
+where
+    D: Disseminator + Send + Sync + 'static,
+    F: Fn(RecNet, Arc<ValidatorEpochInfo>) -> Option<D>,
+{
+    let n = infos.len() as u64;
+    let mut nodes: Vec<(Node<D>, RecNet)> = Vec::new();
+    for own in 0..n {
+        let net = RecNet::default();
+        let e = epoch(&infos, own);
+        let d = mk(net.clone(), e.clone())?;
+        let a2a = TrivialAll2All::new(infos.clone(), Sink::<ConsensusMessage, ConsensusMessage>::default());
+        let node = Alpenglow::new(sks[own as usize].clone(), vsks[own as usize].clone(), a2a, d,
+            Sink::<RepairRequest, RepairResponse>::default(), Sink::<RepairResponse, RepairRequest>::default(), e, Sink::<(), Transaction>::default());
+        nodes.push((node, net));
+    }
+    // the leader's block: one slice, shredded with the leader's key, sent through Disseminator::send
+    let sender_net = RecNet::default();
+    let sender = mk(sender_net.clone(), epoch(&infos, leader))?;
+    let slices = alpenglow::test_utils::create_random_block(Slot::new(slot), 1);
+    let shreds: Vec<Shred> = RegularShredder::default().shred(&slices[0], &sks[leader as usize]).expect("shredding").into_iter().map(|s| s.into_shred()).collect();
+    let mut out = Vec::new();
+    let mut leader_relayed = 0u64;
+    for (si, shred) in shreds.iter().enumerate() {
+        let mut queue: VecDeque<u64> = VecDeque::new();
+        let mut deliveries: Vec<u64> = Vec::new();
+        let mut broadcasts = 0u64;
+        sender_net.drain();
+        sender.send(shred).await.expect("send");
+        for (_, d) in sender_net.drain() { for p in d { queue.push_back(p as u64 - 1); } }
+        let mut steps = 0;
+        while let Some(dst) = queue.pop_front() {
+            steps += 1;
+            if steps > 20 * n + 20 { break; }
+            deliveries.push(dst);
+            if dst >= n { continue; }
+            let (node, net) = &nodes[dst as usize];
+            net.drain();
+            // the real receive path: validate, forward, store (unless we are the leader)
+            node.verif_handle_disseminator_shred(shred.clone()).await.expect("handler");
+            let mut sent_any = false;
+            for (many, d) in net.drain() {
+                if many && !d.is_empty() { broadcasts += 1; }
+                if !d.is_empty() { sent_any = true; }
+                for p in d { queue.push_back(p as u64 - 1); }
+            }
+            if dst == leader && sent_any { leader_relayed += 1; }
+        }
+        out.push((si as u64, deliveries, broadcasts));
+    }
+    tokio::task::yield_now().await;
+    let mut stored = Vec::new();
+    let slice0: SliceIndex = wincode::deserialize(&0usize.to_le_bytes()).expect("slice index");
+    for (v, (node, _)) in nodes.iter().enumerate() {
+        let bs = node.verif_blockstore();
+        let g = bs.read().await;
+        let Some(hash) = g.disseminated_block_hash(Slot::new(slot)).cloned() else { continue };
+        let bid = (Slot::new(slot), hash);
+        if (0..TOTAL_SHREDS).all(|i| g.get_shred(&bid, slice0, alpenglow::shredder::ShredIndex::new(i).unwrap()).is_some()) { stored.push(v as u64); }
+    }
+    Some(RunResult { shreds: out, stored, leader_relayed })
+}
+
+/// builds n real nodes with their own keys and runs all shreds of a one-slice block of `leader` through them
+fn real_run(stakes: &[u64], proto: u64, fanout: u64, slot: u64, leader: u64) -> Option<RunResult> {
+    let rt = tokio::runtime::Builder::new_current_thread().enable_all().build().expect("rt");
+    let mut rng = rand::rng();
+    let sks: Vec<SecretKey> = stakes.iter().map(|_| SecretKey::new(&mut rng)).collect();
+    let vsks: Vec<aggsig::SecretKey> = stakes.iter().map(|_| aggsig::SecretKey::new(&mut rng)).collect();
+    let infos: Vec<ValidatorInfo> = stakes.iter().enumerate().map(|(i, s)| ValidatorInfo {
+        id: ValidatorIndex::new(i as u64), stake: Stake::new(*s), pubkey: sks[i].to_pk(), voting_pubkey: vsks[i].to_pk(),
+        all2all_address: localhost_ip_sockaddr(0), disseminator_address: localhost_ip_sockaddr((i + 1) as u16),
+        repair_requester_address: localhost_ip_sockaddr(0), repair_responder_address: localhost_ip_sockaddr(0),
+    }).collect();
+    let inf2 = infos.clone();
+    let r = catch_unwind(AssertUnwindSafe(|| rt.block_on(async move {
+        match proto {
+            0 => drive(infos, sks, vsks, slot, leader, |net, e| Some(Rotor::new(net, e))).await,
+            1 => drive(infos, sks, vsks, slot, leader, move |net, e| Some(Turbine::new(net, e).with_fanout(fanout as usize))).await,
+            2 => drive(infos, sks, vsks, slot, leader, move |net, _e| Some(TrivialDisseminator::new(inf2.clone(), net))).await,
+            _ => drive(infos, sks, vsks, slot, leader, |net, e| catch_unwind(AssertUnwindSafe(|| Rotor::new_fa1(net, e))).ok()).await,
+        }
+    })));
+    drop(rt);
+    match r {
+        Ok(x) => x,
+        // a panic inside the run: reported as a run in which nothing was delivered
+        Err(_) => Some(RunResult { shreds: (0..TOTAL_SHREDS as u64).map(|i| (i, vec![stakes.len() as u64 + 7], 0)).collect(), stored: vec![], leader_relayed: 0 }),
     }
 }
 
@@ -374,72 +494,59 @@ pub fn gen_c16(seed: u64, tier: Tier) -> CaseSet {
         o.push(txt, format!("case {}: Turbine fanout {} on {} validators ({}{}), 3 instances for each of {} own ids, {} trees (slots {} / {}, slices 0 / 1 / {})", cid, fanout, n, famname, if zeros { ", two zero stakes" } else { "" }, owns.len(), ntrees, slot_a, slot_b, slice_c), evals, true, "turbine-trees");
     }
 
-    // ---------------- loss-free runs on the recording network ----------------
+    // ---------------- loss-free runs of real nodes (consensus.rs receive path) on the recording network ----------------
     let run_ns: Vec<usize> = if thorough { vec![1, 2, 3, 5, 10, 33, 64] } else { vec![1, 2, 3, 5, 10, 33] };
     let n_runs = if thorough { 112 } else { 36 };
+    let mut leader_is_relay_runs = 0u64;
+    let mut leader_inner_runs = 0u64;
     for i in 0..n_runs {
         let n = run_ns[i % run_ns.len()];
-        let proto = match (i / run_ns.len()) % 4 { 0 => 0u64, 3 => 2, _ => 1 };
+        // 0 Rotor::new, 1 Turbine, 2 trivial, 3 Rotor::new_fa1 (lamport-scale stakes so that it constructs)
+        let proto = match (i / run_ns.len()) % 6 { 0 | 4 => 0u64, 1 | 2 => 1, 3 => 2, _ => 3 };
         let fanout = if proto == 1 { fanouts[(i + i / 7) % 4] } else { 0 };
-        let (stakes, famname) = stakes_for(&mut rng, (i / 3) % 7, n, 64);
-        let stakes = fit_total(stakes);
-        let infos = fac.infos(&stakes);
+        let fam3 = if rng.chance(1, 2) { 2usize } else { 5 };
+        let (stakes, famname) = if proto == 3 { stakes_for(&mut rng, fam3, n, 64) } else { stakes_for(&mut rng, (i / 3) % 7, n, 64) };
+        let mut stakes = fit_total(stakes);
         let n = stakes.len() as u64;
-        let slot = if i % 4 == 0 { rng.below(8) } else { rng.next() >> rng.below(60) };
-        let slice = rng.below(1024);
-        let leader = (slot / 4) % n;                        // checked against EpochInfo::leader below
-        let e0 = epoch(&infos, 0);
-        assert_eq!(e0.epoch_info().leader(Slot::new(slot)).id.inner(), leader);
-        enum Node { R(RotorNew), T(Turbine<RecNet>), Tr(TrivialDisseminator<RecNet>) }
-        let nodes: Vec<(Node, RecNet)> = (0..n).map(|own| {
-            let net = RecNet::default();
-            let node = match proto {
-                0 => Node::R(Rotor::new(net.clone(), epoch(&infos, own))),
-                1 => Node::T(Turbine::new(net.clone(), epoch(&infos, own)).with_fanout(fanout as usize)),
-                _ => Node::Tr(TrivialDisseminator::new(infos.clone(), net.clone())),
-            };
-            (node, net)
-        }).collect();
-        let send = |k: usize, s: &Shred| match &nodes[k].0 { Node::R(r) => block_on(r.send(s)).unwrap(), Node::T(t) => block_on(t.send(s)).unwrap(), Node::Tr(t) => block_on(t.send(s)).unwrap() };
-        let forward = |k: usize, s: &Shred| match &nodes[k].0 { Node::R(r) => block_on(r.forward(s)).unwrap(), Node::T(t) => block_on(t.forward(s)).unwrap(), Node::Tr(t) => block_on(t.forward(s)).unwrap() };
-        let shreds: Vec<Shred> = maker.shreds(slot, slice).clone();
+        // every other run: a heavy validator that is also the leader of the slot, so that the leader is
+        // its own relay for most shreds (Rotor) / sits near the root of most trees (Turbine)
+        let heavy = i % 2 == 0 && n >= 2;
+        let hv = rng.below(n);
+        if heavy { let rest: u64 = stakes.iter().sum::<u64>().min(1 << 60); stakes[hv as usize] = rest.saturating_mul(3).max(3); }
+        let stakes = fit_total(stakes);
+        let slot = if heavy { 4 * (hv + n * rng.below(5)) + rng.below(4) + if hv == 0 && n == 1 { 4 } else { 0 } } else { 1 + (rng.next() >> (4 + rng.below(56))) };
+        let slot = slot.max(1);
+        let slice = 0u64;
+        let leader = (slot / 4) % n;
         let cid = o.cases.len() as u64;
+        let res = real_run(&stakes, proto, fanout, slot, leader);
         let mut shreds_txt = Vec::new();
         let mut evals = 0;
-        for (si, shred) in shreds.iter().enumerate() {
-            let mut queue: VecDeque<u64> = VecDeque::new();
-            let mut deliveries: Vec<u64> = Vec::new();
-            let mut broadcasts = 0u64;
-            let ok = catch_unwind(AssertUnwindSafe(|| {
-                nodes[leader as usize].1.drain();
-                send(leader as usize, shred);
-                for (_, d) in nodes[leader as usize].1.drain() { for p in d { queue.push_back(p as u64 - 1); } }
-                let mut steps = 0;
-                while let Some(dst) = queue.pop_front() {
-                    steps += 1;
-                    if steps > 20 * n + 20 { break; }
-                    deliveries.push(dst);
-                    // the receive path of consensus.rs: forward first, whoever we are
-                    forward(dst as usize, shred);
-                    for (many, d) in nodes[dst as usize].1.drain() {
-                        if many && !d.is_empty() { broadcasts += 1; }
-                        for p in d { queue.push_back(p as u64 - 1); }
-                    }
+        let name = ["rotor-new", "turbine", "trivial", "rotor-fa1"][proto as usize];
+        match res {
+            None => {
+                // the disseminator could not be constructed (Rotor::new_fa1): covered by the Rotor cases
+                continue;
+            }
+            Some(r) => {
+                if r.leader_relayed > 0 { if proto == 1 { leader_inner_runs += 1; } else if proto != 2 { leader_is_relay_runs += 1; } }
+                for (si, deliveries, broadcasts) in &r.shreds {
+                    evals += 1;
+                    let mut cnt = vec![0u64; n as usize];
+                    for d in deliveries { if (*d as usize) < cnt.len() { cnt[*d as usize] += 1; } }
+                    let good = (0..n).all(|v| if v == leader && (proto == 0 || proto == 3) { cnt[v as usize] <= 1 } else { cnt[v as usize] == 1 && (v == leader || r.stored.contains(&v)) })
+                        && deliveries.iter().all(|d| *d < n);
+                    o.sigs.push((cid, *si + 1, format!("run:{}:{}", name, if good { "everyone-exactly-once" } else { "coverage-broken" })));
+                    shreds_txt.push(format!("({}, {}, {})", cf::n(*si), r_list(deliveries), cf::n(*broadcasts)));
                 }
-            })).is_ok();
-            if !ok { deliveries.push(n + 7); }               // a panic shows up as an out-of-range delivery
-            evals += 1;
-            let mut cnt = vec![0u64; n as usize];
-            for d in &deliveries { if (*d as usize) < cnt.len() { cnt[*d as usize] += 1; } }
-            let good = ok && (0..n).all(|v| if v == leader && proto == 0 { cnt[v as usize] <= 1 } else { cnt[v as usize] == 1 });
-            o.sigs.push((cid, si as u64 + 1, format!("run:{}:{}", ["rotor-new", "turbine", "trivial"][proto as usize], if good { "everyone-exactly-once" } else { "coverage-broken" })));
-            shreds_txt.push(format!("({}, {}, {})", cf::n(si as u64), r_list(&deliveries), cf::n(broadcasts)));
+                let txt = format!("(C16Run {} {} {} {} {} {} {} {})", cf::n(cid), r_list(&stakes), cf::n(proto), cf::n(fanout), cf::n(slot), cf::n(slice), r_list(&r.stored), cf::list(&shreds_txt));
+                o.push(txt, format!("case {}: loss-free run of real nodes, {} on {} validators ({}{}), slot {} slice {} leader {}, leader relayed {} of its own shreds", cid, match proto { 0 => "Rotor::new".to_string(), 1 => format!("Turbine fanout {}", fanout), 2 => "TrivialDisseminator".to_string(), _ => "Rotor::new_fa1".to_string() }, n, famname, if heavy { ", heavy leader" } else { "" }, slot, slice, leader, r.leader_relayed), evals, true, &format!("run:{}", name));
+            }
         }
-        let txt = format!("(C16Run {} {} {} {} {} {} {})", cf::n(cid), r_list(&stakes), cf::n(proto), cf::n(fanout), cf::n(slot), cf::n(slice), cf::list(&shreds_txt));
-        o.push(txt, format!("case {}: loss-free run, {} on {} validators ({}), slot {} slice {} leader {}", cid, match proto { 0 => "Rotor::new".to_string(), 1 => format!("Turbine fanout {}", fanout), _ => "TrivialDisseminator".to_string() }, n, famname, slot, slice, leader), evals, true, &format!("run:{}", ["rotor-new", "turbine", "trivial"][proto as usize]));
     }
+    o.stats.distribution.push(("runs_where_the_leader_relays_its_own_shreds".into(), format!("rotor={}, turbine-inner-node={}", leader_is_relay_runs, leader_inner_runs)));
 
-    o.stats.rule = "StdRng word streams for fixed and random seeds under u32 / u64 call patterns that straddle the 64-word buffer; Rotor: n in {1,2,3,5,10,64,200,1000} (thorough: also 100, 2000), the stake families of C17, both constructors (Rotor::new, Rotor::new_fa1), three independently constructed instances per configuration (own id 0 / n-1 / random; constructed before, between and after the other instances' queries; queried in order, in reverse order, and twice in a row with the slices interleaved = cold and warm cache), slots 0 / small / 2^64-1.. / random magnitudes, slices 0 / 1023 / random, shreds 0 / 63 / random; Turbine: n in {1,2,3,5,10,17,64,200,1000}, fanouts {1,2,3,200}, one instance per validator for n <= 17 (complete trees), otherwise own ids 0, n-1 and three random ones, instances reconfigured through with_fanout, zero-stake validators in every fifth configuration, query order reversed on every other tree and repeated on every third; loss-free runs of all 64 shreds of a slice on the recording network for n in {1,2,3,5,10,33} (thorough: 64) with FIFO delivery and forward-on-every-receipt; non-trivial = at least one instance constructed; distinct by content".into();
+    o.stats.rule = "StdRng word streams for fixed and random seeds under u32 / u64 call patterns that straddle the 64-word buffer; Rotor: n in {1,2,3,5,10,64,200,1000} (thorough: also 100, 2000), the stake families of C17, both constructors (Rotor::new, Rotor::new_fa1), three independently constructed instances per configuration (own id 0 / n-1 / random; constructed before, between and after the other instances' queries; queried in order, in reverse order, and twice in a row with the slices interleaved = cold and warm cache), slots 0 / small / 2^64-1.. / random magnitudes, slices 0 / 1023 / random, shreds 0 / 63 / random; Turbine: n in {1,2,3,5,10,17,64,200,1000}, fanouts {1,2,3,200}, three independently constructed instances per own id (every validator for n <= 17 = complete trees, otherwise own ids 0, n-1 and three random ones), triples = two slots x slices {0, 1, random} x two indices within the slice, asked in three different orders (as listed / reversed: other slot and slice 1 first / grouped by index with slices descending, each twice = cold and warm cache), instances reconfigured through with_fanout, zero-stake validators in every fifth configuration; loss-free runs of REAL Alpenglow nodes (own keys, blockstore, pool, votor; every datagram recorded on the network is handed to the addressed node's handle_disseminator_shred) for all 64 shreds of a one-slice block signed by the slot's leader, n in {1,2,3,5,10,33} (thorough: 64), Rotor::new / Rotor::new_fa1 / Turbine (4 fanouts) / trivial, every other run with a heavy validator that leads the slot (leader = relay, leader = inner tree node), FIFO delivery until quiescence, blockstores inspected afterwards; non-trivial = at least one instance constructed; distinct by content".into();
     let mut v: Vec<_> = o.kinds.iter().collect(); v.sort();
     o.stats.distribution.push(("case_kinds".into(), v.iter().map(|(k, c)| format!("{}={}", k, c)).collect::<Vec<_>>().join(", ")));
     CaseSet { header: "From AG Require Import Model.Sampling Model.Routing Oracle.C16.\n".to_string(), runner: "c16_run".to_string(), defs: Vec::new(), cases: o.cases, descr: o.descr, sigs: o.sigs, stats: o.stats }
